@@ -24,6 +24,8 @@ def families(tier, want_g3=True, fault_codes=False):
     fams = []
     T = templates.templates(tier)
     fams.append(("templates", T, None, None))
+    import family_features
+    fams.append(("X(A;link;B;C) feature interactions", list(family_features.family(tier)), None, None))
     if tier == "quick":
         fams.append(("G(2;2;plain+restat+depfile+gcc)", list(family.family(2, 2, ["plain", "restat", "depfile", "gcc"], tier_depth=3)), None, None))
     else:
